@@ -826,6 +826,8 @@ def end_oracles(W, mon):
                 mon.req("C05", "feasible-work-completes", t.state == TaskState.COMPLETED, tn + " is " + t.state.name)
             if mon.ended:
                 mon.req("C05", "ends-before-timeout", mon.end_time < W.timeout)
+        for tn in spec.get("must_complete", []):  # work that is released long before the loop timeout and fits: it must get done
+            mon.req("C05", "feasible-work-completes", W.tasks[tn].state == TaskState.COMPLETED, tn + " is " + W.tasks[tn].state.name)
         # never ends while released, runnable work remains
         for tn, t in W.tasks.items():
             if t.state == TaskState.RELEASED:
